@@ -175,11 +175,7 @@ Terminates == <>(pc = "done")
 NeverDoneEof == ~(pc = "done" /\ out.kind = "eof")
 NeverPartial == ~(pc = "done" /\ out.kind = "bytes" /\ op.len # NoLen /\ 0 < Len(out.data) /\ Len(out.data) < op.len)
 
-\* ---------------------------------------------------------------------------- constant evaluation (B3)
-EvalInit == n = 0 /\ op = Op("read_from", 0, NoLen, 0, FALSE) /\ pc = "done" /\ req = NoRange /\ resp = NoResp
-            /\ buf = <<>> /\ out = Bytes(<<>>)
-EvalNext == UNCHANGED vars
-
+\* ---------------------------------------------------------------------------- B3: inputs and verdict (constant evaluation)
 Inputs == UNION { { [n |-> m, op |-> o] : o \in Ops(m) } : m \in 0..MaxN }
 \* (Gen and Verdict take a dummy argument so that TLC does not evaluate them eagerly in every run)
 Gen(go) == ndJsonSerialize(IOEnv.RR_INPUTS, SetToSeq(Inputs))
